@@ -2,6 +2,7 @@ package percolator
 
 import (
 	"fmt"
+	"math"
 
 	NoKV "github.com/feichai0017/NoKV"
 	"github.com/feichai0017/NoKV/kv"
@@ -358,6 +359,10 @@ func isLockExpired(lock *Lock, currentTs uint64) bool {
 		return false
 	}
 	if lock.TTL == 0 {
+		return false
+	}
+	if lock.TTL > math.MaxUint64-lock.Ts {
+		// The expiry instant does not fit into a timestamp: the lock never expires.
 		return false
 	}
 	return currentTs >= lock.Ts+lock.TTL
